@@ -12,6 +12,7 @@ package fam_rewards
 
 import (
 	"fmt"
+	"hash/fnv"
 	"math/rand"
 	"time"
 
@@ -56,6 +57,7 @@ type Driver struct {
 
 func NewDriver(w *tf.Writer) *Driver {
 	cfg := world.DefaultConfig()
+	cfg.DistinctConsKeys = true // operator address != consensus address, as on a live chain
 	d := &Driver{w: world.New(cfg), W: w, seen: map[string]bool{}, Extra: tf.M{}}
 	for i := 1; i <= 3; i++ {
 		a := world.NewAccount(fmt.Sprintf("rw-member%d", i))
@@ -385,9 +387,20 @@ func (d *Driver) runStep(s *session, step tf.M) (interesting bool) {
 	var votes []abci.VoteInfo
 	for i, v := range w.Vals {
 		if pw[i] > 0 {
+			// the vote's flag is an input the allocation must not depend on (a validator of the last commit's set that
+			// was absent or voted nil is still paid by its power): varied as a function of the step
+			flag := cmtproto.BlockIDFlagCommit
+			fh := fnv.New32a()
+			fmt.Fprint(fh, step, i)
+			switch fh.Sum32() % 5 {
+			case 0:
+				flag = cmtproto.BlockIDFlagAbsent
+			case 1:
+				flag = cmtproto.BlockIDFlagNil
+			}
 			votes = append(votes, abci.VoteInfo{
-				Validator:   abci.Validator{Address: v.Pub.Address().Bytes(), Power: int64(pw[i])},
-				BlockIdFlag: cmtproto.BlockIDFlagCommit,
+				Validator:   abci.Validator{Address: v.ConsAddress(), Power: int64(pw[i])},
+				BlockIdFlag: flag,
 			})
 		}
 	}
@@ -452,7 +465,7 @@ func (d *Driver) runStep(s *session, step tf.M) (interesting bool) {
 	default:
 		hdr := w.BaseHeader
 		hdr.Height, hdr.Time = r.Height, r.Time
-		hdr.ProposerAddress = w.Vals[propIdx].Pub.Address().Bytes()
+		hdr.ProposerAddress = w.Vals[propIdx].ConsAddress()
 		bctx := r.Ctx.WithBlockHeader(hdr).WithHeaderHash(world.BlockHash(r.Height)).WithVoteInfos(votes).
 			WithEventManager(sdk.NewEventManager()).WithBlockHeight(r.Height)
 		cc, write := bctx.CacheContext()
